@@ -345,7 +345,7 @@ CHECKS["C01"] = c01
 
 def c04(prop, tier, seed, work):
     scs = [
-        dict(name="manput", profile="manput", contents=["m1", "m2", "m3", "m4", "x1", "x3", "a1", "mg"], algs=["sha256", "sha512"], depth=(18, 30), num=(40, 400),
+        dict(name="manput", profile="manput", contents=["m1", "m2", "m3", "m4", "x1", "x3", "a1", "mg", "mi"], algs=["sha256", "sha512"], depth=(18, 30), num=(40, 400),
              stores=STORES3, obs=["refs"], mc_contents=["m1", "x4"], mc_depth=(3, 4)),
     ]
     return histories(prop, tier, seed, work, scs, "", "a history is non-trivial if it contains a manifest push; distinct = distinct operation sequences",
